@@ -1071,7 +1071,7 @@ fn main() {
             // repositories not in storage: inventory announcements and the sync task of `wake` fetch
             (flagged(1, 2, 2, true, false), 4, 5, false),
             // worker results only forwarded for connected peers (as `Wire::worker_result` does)
-            (flagged(1, 2, 1, false, true), 5, 6, false),
+            (flagged(1, 2, 1, false, true), 4, 6, false),
             (flagged(2, 2, 2, true, true), 3, 5, false),
         ];
         for (cfg, dq, dt, rich) in plans {
